@@ -480,6 +480,22 @@ func Judge(c *Case, s Sink) (judged bool, nontrivial bool) {
 					badKey(k, fmt.Sprintf("storage range %d [%d,%d) of a monthly axis with metric offset %d does not start/end at a month start%s", i, l.FromSec, l.ToSec, m.Offset, which))
 				}
 			}
+			// every point of the level maps to its slot of the range (rows are placed with IndexOf)
+			if !monthly || m.Offset == 0 {
+				for _, j := range []int{0, ts.LODs[i].Len - 1, ts.LODs[i].Len / 2} {
+					ix, err := l.IndexOf(ts.Time[x+j] - m.Offset)
+					if err != nil || ix != j {
+						bad("lods/index-of", fmt.Sprintf("range %d [%d,%d) step %d: IndexOf(point %d of the level, %d) = %d, %v", i, l.FromSec, l.ToSec, l.StepSec, j, ts.Time[x+j]-m.Offset, ix, err))
+						break
+					}
+				}
+				if !monthly && l.StepSec > 1 {
+					if _, err := l.IndexOf(first - m.Offset + 1); err == nil {
+						bad("lods/index-of", fmt.Sprintf("range %d step %d: IndexOf accepts the unaligned timestamp %d", i, l.StepSec, first-m.Offset+1))
+					}
+				}
+				s.Count("index_of_checked", 1)
+			}
 			want := m.Metric.PreKeyOnly || (m.Metric.PreKeyFrom != 0 && int64(m.Metric.PreKeyFrom) <= l.FromSec)
 			if l.HasPreKey != want {
 				bad("lods/prekey", fmt.Sprintf("range %d HasPreKey=%v", i, l.HasPreKey))
